@@ -5,15 +5,19 @@ package main
 // the backend registered by RegisterConn - and both transcripts are recorded.
 
 import (
+	"bytes"
 	"context"
+	"encoding/base64"
 	"encoding/json"
 	"fmt"
 	"io"
 	"net"
+	"net/http/httptest"
 	"strconv"
 	"sync"
 	"time"
 
+	spb "google.golang.org/genproto/googleapis/rpc/status"
 	"google.golang.org/grpc"
 	"google.golang.org/grpc/codes"
 	"google.golang.org/grpc/credentials/insecure"
@@ -22,6 +26,7 @@ import (
 	rpb "google.golang.org/grpc/reflection/grpc_reflection_v1alpha"
 	"google.golang.org/grpc/status"
 	"google.golang.org/grpc/test/bufconn"
+	"google.golang.org/protobuf/encoding/protojson"
 	"google.golang.org/protobuf/proto"
 	"google.golang.org/protobuf/reflect/protoreflect"
 	"google.golang.org/protobuf/types/dynamicpb"
@@ -61,6 +66,8 @@ type ProxyEv struct {
 	S       PScript `json:"s"`
 	Direct  PView   `json:"direct"`
 	Proxied PView   `json:"proxied"`
+	HTTP    PView   `json:"http"` // the same script from an HTTP/JSON client on the front (implicit POST /pkg.Service/Method binding)
+	HasHTTP bool    `json:"hashttp"`
 	Crash   string  `json:"crash"`
 }
 
@@ -116,7 +123,10 @@ func newPBackend() (*pbackend, error) {
 		pv.BCalls++
 		bin := md.Get("x-blob-bin")
 		pv.MDOK = len(md.Get("x-custom")) == 2 && md.Get("x-custom")[0] == "one" && md.Get("x-custom")[1] == "two" &&
-			len(bin) == 1 && bin[0] == "\x00\xff\x10"
+			len(bin) == 1 && bin[0] == "\x00\xff\x10" &&
+			// application keys that merely look like protocol keys travel like any other
+			len(md.Get("grpc-tenant")) == 1 && md.Get("grpc-tenant")[0] == "t1" &&
+			len(md.Get("grpc-trace-bin")) == 1 && md.Get("grpc-trace-bin")[0] == "\x01\x02"
 		b.mu.Unlock()
 		return pv, s
 	}
@@ -216,7 +226,8 @@ func runCall(cc *grpc.ClientConn, s PScript, callID string) PView {
 	go func() {
 		defer close(done)
 		sj, _ := json.Marshal(s)
-		ctx := metadata.AppendToOutgoingContext(ctx, "x-script", string(sj), "x-call", callID, "x-custom", "one", "x-custom", "two", "x-blob-bin", "\x00\xff\x10")
+		ctx := metadata.AppendToOutgoingContext(ctx, "x-script", string(sj), "x-call", callID, "x-custom", "one", "x-custom", "two", "x-blob-bin", "\x00\xff\x10",
+			"grpc-tenant", "t1", "grpc-trace-bin", "\x01\x02")
 		name, _ := methodOf(s.Shape)
 		sd := &grpc.StreamDesc{ClientStreams: s.Shape == "cstream" || s.Shape == "bidi", ServerStreams: s.Shape == "sstream" || s.Shape == "bidi"}
 		cs, err := cc.NewStream(ctx, sd, "/vp.P/"+name)
@@ -276,6 +287,7 @@ func runCall(cc *grpc.ClientConn, s PScript, callID string) PView {
 }
 
 type proxyWorld struct {
+	mux    *larking.Mux
 	b      *pbackend
 	direct *grpc.ClientConn
 	front  *sockServer
@@ -304,6 +316,7 @@ func newProxyWorld() (*proxyWorld, error) {
 	if err := mux.RegisterConn(ctx, w.regCC); err != nil {
 		return nil, fmt.Errorf("RegisterConn: %w", err)
 	}
+	w.mux = mux
 	if w.front, err = startSockServer(mux); err != nil {
 		return nil, err
 	}
@@ -322,7 +335,7 @@ func (w *proxyWorld) close() {
 }
 
 func (w *proxyWorld) run(s PScript) ProxyEv {
-	ev := ProxyEv{Ev: "Proxy", Case: s.ID, S: s}
+	ev := ProxyEv{Ev: "Proxy", Case: s.ID, S: s, HTTP: PView{Replies: []int{}, BGot: []int{}}}
 	merge := func(pv PView, id string) PView {
 		w.b.mu.Lock()
 		if r := w.b.rec[id]; r != nil {
@@ -341,12 +354,98 @@ func (w *proxyWorld) run(s PScript) ProxyEv {
 		ev.Direct = merge(runCall(w.direct, s, d), d)
 		p := "p" + strconv.Itoa(s.ID)
 		ev.Proxied = merge(runCall(w.viaCC, s, p), p)
+		h := "h" + strconv.Itoa(s.ID)
+		if !s.Wait {
+			ev.HasHTTP = true
+			ev.HTTP = runHTTPCall(w.mux, s, h)
+		}
 		// the backend may still be draining after the client saw the status: give it a moment and re-read
 		time.Sleep(20 * time.Millisecond)
 		ev.Direct = merge(ev.Direct, d)
 		ev.Proxied = merge(ev.Proxied, p)
+		if ev.HasHTTP {
+			ev.HTTP = merge(ev.HTTP, h)
+		}
 	}()
 	return ev
+}
+
+// runHTTPCall sends the script's messages as one HTTP/JSON request through the front and reads the body as a
+// stream of JSON values: replies, and a google.rpc.Status if the call failed.
+func runHTTPCall(mux *larking.Mux, s PScript, callID string) PView {
+	pv := PView{Replies: []int{}, BGot: []int{}}
+	name, _ := methodOf(s.Shape)
+	var body bytes.Buffer
+	for i := 1; i <= s.N; i++ {
+		body.Write(marshalMsg("json", reqMsg(s.ID, i, 3)))
+		body.WriteByte('\n')
+	}
+	req := httptest.NewRequest("POST", "http://verif.test/vp.P/"+name, bytes.NewReader(body.Bytes()))
+	req.Header.Set("Content-Type", "application/json")
+	sj, _ := json.Marshal(s)
+	req.Header.Set("X-Script", string(sj))
+	req.Header.Set("X-Call", callID)
+	req.Header["X-Custom"] = []string{"one", "two"}
+	req.Header.Set("X-Blob-Bin", base64.RawStdEncoding.EncodeToString([]byte("\x00\xff\x10")))
+	req.Header.Set("Grpc-Tenant", "t1")
+	req.Header.Set("Grpc-Trace-Bin", base64.RawStdEncoding.EncodeToString([]byte("\x01\x02")))
+	w := httptest.NewRecorder()
+	done := make(chan struct{})
+	go func() {
+		defer close(done)
+		defer func() {
+			if p := recover(); p != nil {
+				pv.Err = fmt.Sprint("panic: ", p)
+			}
+		}()
+		mux.ServeHTTP(w, req)
+	}()
+	select {
+	case <-done:
+	case <-time.After(4 * time.Second):
+		pv.Hang = true
+		return pv
+	}
+	pv.MsgEqual, pv.DetEqual = true, true
+	dec := json.NewDecoder(bytes.NewReader(w.Body.Bytes()))
+	sawStatus := false
+	for {
+		var raw json.RawMessage
+		if err := dec.Decode(&raw); err != nil {
+			if err != io.EOF {
+				pv.Err = "body: " + err.Error()
+			}
+			break
+		}
+		var probe map[string]json.RawMessage
+		json.Unmarshal(raw, &probe)
+		if _, isStatus := probe["code"]; isStatus && probe["id"] == nil {
+			var st spb.Status
+			if err := protojson.Unmarshal(raw, &st); err != nil {
+				pv.Err = "status: " + err.Error()
+				break
+			}
+			sawStatus = true
+			pv.Code = int(st.Code)
+			want := status.Convert(scriptStatus(s))
+			pv.MsgEqual = st.Message == want.Message()
+			_, pv.DetEqual = checkDetails(&st, s.Det)
+			continue
+		}
+		m := dynamicpb.NewMessage(repDesc())
+		j := 0
+		if err := protojson.Unmarshal(raw, m); err == nil {
+			var c int
+			if _, err := fmt.Sscanf(m.Get(repDesc().Fields().ByName("id")).String(), "h%d-r%d", &c, &j); err != nil || !proto.Equal(m, repMsg(s.ID, j, 3)) {
+				j = 0
+			}
+		}
+		pv.Replies = append(pv.Replies, j)
+	}
+	if !sawStatus && w.Code != 200 {
+		pv.Code = -w.Code // an error status without a status body
+	}
+	return pv
 }
 
 func init() { drivers["proxy"] = proxyMain }
